@@ -102,7 +102,8 @@ func cleanSuffix(val any) any {
 		for k, v := range t {
 			parts := strings.Split(k, "#")
 
-			result[parts[0]] = cleanSuffix(v)
+			// the values of all variables addressing the same key (elements of a list) are merged
+			result[parts[0]] = merge(result[parts[0]], cleanSuffix(v))
 		}
 
 		return result
